@@ -147,3 +147,17 @@ for _flav, _ln in [("rustls_0_20", "tlsConnShapeRustls020"), ("rustls_0_21", "tl
                    ("rustls_0_22", "tlsConnShapeRustls022"), ("rustls_0_23", "tlsConnShapeRustls023"),
                    ("openssl", "tlsConnShapeOpenssl"), ("native_tls", "tlsConnShapeNativeTls")]:
     register("tls_conn_shape_" + _flav, span_custom("actix-tls/src/connect/%s.rs" % _flav, _tls_connector_shape(_ln)))
+
+
+def _local_waker_shape(src):
+    reg = _block(src, r"pub fn register\(&self, waker: &Waker\)\s*->\s*bool\s*\{", "LocalWaker::register")
+    wake = _block(src, r"pub fn wake\(&self\)\s*\{", "LocalWaker::wake")
+    facts = [
+        # the waker passed LAST is the one stored: whatever was stored before is replaced
+        ("register_replaces_stored_waker", _has(reg, "let last_waker = self . waker . replace ( Some ( waker . clone ( ) ) ) ; last_waker . is_some ( )")),
+        ("wake_takes_and_wakes", _has(wake, "if let Some ( waker ) = self . take ( ) { waker . wake ( ) ; }")),
+    ]
+    return _lean_facts("localWakerShape", facts), reg + wake
+
+
+register("local_waker_shape", span_custom("local-waker/src/lib.rs", _local_waker_shape))
